@@ -167,6 +167,14 @@ def routes(draw, nl: dict, allow_bench: bool = True):
         route['moves'] = [draw(st.integers(0, n - 1)) for _ in range(k)]
     if kind == 'bench':
         route['keys'] = [draw(st.integers(0, 7)) for _ in range(n)]
+    # a past (scratch gates added and removed again) and the way the object is obtained (copy / deep copy / pickle)
+    sc = draw(st.sampled_from([0, 0, 0, 1, 2, 3]))
+    if sc and n:
+        route['scratch'] = sc
+        route['scratch_seed'] = draw(st.integers(0, 40))
+    ob = draw(st.sampled_from([None, None, None, 'copy', 'deepcopy', 'pickle']))
+    if ob:
+        route['obtain'] = ob
     return route
 
 
